@@ -410,7 +410,7 @@ def run_optimisers(ctx, scratch, rng, quick):
             sing = kind_objective(kind, n, T, list(range(n)), gamma)
             per_algo = {}
             for algo in ('louvain', 'leiden'):
-                args = dict(algo=algo, m=mspec(c['nr'], c['nc'], c['triples']), want_index=(algo == 'louvain'))
+                args = dict(algo=algo, m=mspec(c['nr'], c['nc'], c['triples']), want_index=True)
                 args.update(c['opts'])
                 r = impl.call('c06', 'optimiser', args, timeout=8)
                 ctx.traces += 1
@@ -447,6 +447,10 @@ def run_optimisers(ctx, scratch, rng, quick):
                     ctx.violation(site, 'sum of the logged increases differs from the objective gain over singletons',
                                   case=args, expected=gain, observed=total, log=out['log'], labels=labels,
                                   oracle='increase_total', **fields)
+                if algo == 'leiden' and not out.get('refine_contract_ok', True):
+                    ctx.violation(site, 'optimize_refine_core broke the contract the Leiden theorems assume: ' +
+                                  str(out.get('refine_contract_why')), case=args, observed=out.get('refine_answers'),
+                                  oracle='refine_contract', **fields)
                 if any(x[2] < -1e-6 for x in out['log']):
                     ctx.violation(site, 'a logged increase is negative', case=args, observed=out['log'],
                                   oracle='increase_negative', **fields)
@@ -463,65 +467,79 @@ def run_optimisers(ctx, scratch, rng, quick):
     for site, cnt in sorted(hangs.items()):
         ctx.notes.append('%s did not return within 8 s on %d case(s), all with tol_optimization=0 expected '
                          '(float32 tie flips; termination is property C17, not C06)' % (site, cnt))
-    # ---- (c) model vs code (Louvain, integer weights)
-    sel = [k for k, c in enumerate(cases) if c['integer'] and 'louvain' in results[k]
-           and (not c['opts']['shuffle_nodes'] or 'index' in results[k]['louvain'][0])]
+    # ---- (c) model vs code (integer weights): Louvain, and Leiden with the captured refinement answers as oracle
+    sel = []
     exprs = []
-    for k in sel:
-        c = cases[k]
+    for k, c in enumerate(cases):
+        if not c['integer']:
+            continue
         o = c['opts']
-        index = 'None'
-        if o['shuffle_nodes']:
-            index = '(Some %s)' % clist(results[k]['louvain'][0]['index'], cnat)
-        exprs.append('show_fit (louvain_fit 80 400 %s %s %s %s (%d)%%Z %s %s %s %s)' % (
-            o['modularity'].capitalize(), cq(Fraction(f32(o['resolution']))), cq(Fraction(f32(o['tol_optimization']))),
-            cq(Fraction(o['tol_aggregation'])), o['n_aggregations'], cbool(o['sort_clusters']),
-            wmat(c['nr'], c['nc'], c['triples']), cbool(o['force_bipartite']), index))
+        for algo in ('louvain', 'leiden'):
+            if algo not in results[k]:
+                continue
+            out = results[k][algo][0]
+            if o['shuffle_nodes'] and 'index' not in out:
+                continue
+            index = '(Some %s)' % clist(out['index'], cnat) if o['shuffle_nodes'] else 'None'
+            common = '%s %s %s %s (%d)%%Z %s' % (
+                o['modularity'].capitalize(), cq(Fraction(f32(o['resolution']))), cq(Fraction(f32(o['tol_optimization']))),
+                cq(Fraction(o['tol_aggregation'])), o['n_aggregations'], cbool(o['sort_clusters']))
+            tail = '%s %s %s' % (wmat(c['nr'], c['nc'], c['triples']), cbool(o['force_bipartite']), index)
+            if algo == 'louvain':
+                exprs.append('show_fit (louvain_fit 80 400 %s %s)' % (common, tail))
+            else:
+                answers = clist(out.get('refine_answers', []), lambda l: clist(l, cnat))
+                exprs.append('show_fit (leiden_fit 80 400 %s (fun count _ _ => nth (count - 1) %s []) %s)' % (
+                    common, answers, tail))
+            sel.append((k, algo))
     vals = coq_eval('c06fit', IMPORTS, exprs, prelude=PRELUDE, shard=12, timeout=900)
-    agree = dropped = ties_dropped = fuel_out = 0
-    for k, v in zip(sel, vals):
+    stats = {a: dict(compared=0, agree=0, margin_dropped=0, tie_dropped=0, model_out_of_fuel=0) for a in ('louvain', 'leiden')}
+    for (k, algo), v in zip(sel, vals):
         c = cases[k]
-        out, labels = results[k]['louvain']
-        key = ('model', c['nr'], c['nc'], tuple(c['triples']), tuple(sorted(c['opts'].items())))
+        st = stats[algo]
+        st['compared'] += 1
+        site = 'Louvain' if algo == 'louvain' else 'Leiden'
+        out, labels = results[k][algo]
+        key = ('model', algo, c['nr'], c['nc'], tuple(c['triples']), tuple(sorted(c['opts'].items())))
         if v[0] != 'MOk':
             if v[1][0] == 'MOutOfFuel':
-                fuel_out += 1
+                st['model_out_of_fuel'] += 1
                 continue
-            ctx.violation('Louvain', 'model reports an error where the implementation returns', case=c['opts'],
-                          expected=v, observed=out, oracle='model_labels', family=c['fam'])
+            ctx.violation(site, 'model reports an error where the implementation returns', case=c['opts'],
+                          expected=v, observed=out, oracle='model_labels', family=c['fam'], algo=algo)
             continue
         mlabels, mlog, mg, ties = v[1]
         margin = frac(mg[0]) if mg else None
-        ctx.count('model:' + c['fam'], key, len(mlabels) >= 2)
+        ctx.count('model_%s:%s' % (algo, c['fam']), key, len(mlabels) >= 2)
         if margin is not None and margin < MARGIN:
-            dropped += 1
+            st['margin_dropped'] += 1
             ctx.margin_dropped += 1
             continue
         same = partition(mlabels) == partition(labels)
         if not same and ties > 0:
-            ties_dropped += 1
+            st['tie_dropped'] += 1
             ctx.margin_dropped += 1
             continue
-        fields = dict(algo='louvain', modularity=c['opts']['modularity'], resolution=c['opts']['resolution'],
+        fields = dict(algo=algo, modularity=c['opts']['modularity'], resolution=c['opts']['resolution'],
                       family=c['fam'], shuffle_nodes=c['opts']['shuffle_nodes'])
         args = dict(m=mspec(c['nr'], c['nc'], c['triples']))
         args.update(c['opts'])
         if not same:
-            ctx.corr_broken.append(dict(kind='louvain_model_vs_code', case=args))
-            ctx.violation('Louvain', 'labels differ from the exact model of optimize_core (as partitions, margin %s)' %
+            ctx.corr_broken.append(dict(kind='%s_model_vs_code' % algo, case=args))
+            ctx.violation(site, 'labels differ from the exact model of optimize_core (as partitions, margin %s)' %
                           (float(margin) if margin is not None else None), case=args, expected=mlabels, observed=labels,
                           model_log=[[a, b, float(frac(x))] for a, b, x in mlog], log=out['log'],
-                          oracle='model_labels', **fields)
+                          refine_answers=out.get('refine_answers'), oracle='model_labels', **fields)
             continue
-        agree += 1
+        st['agree'] += 1
         if ties > 0:
             continue   # same partition, but an exact tie may have been taken the other way: figures may differ
         mfig = [[a, b, float(frac(x))] for a, b, x in mlog]
         okfig = len(mfig) == len(out['log']) and all(
             a[0] == b[0] and a[1] == b[1] and abs(a[2] - b[2]) <= TOL32 * max(1.0, abs(a[2])) for a, b in zip(mfig, out['log']))
         if not okfig:
-            ctx.violation('Louvain', "the log's Aggregation / Clusters / Increase figures differ from the exact model",
+            ctx.violation(site, "the log's Aggregation / Clusters / Increase figures differ from the exact model",
                           case=args, expected=mfig, observed=out['log'], oracle='model_log', **fields)
-    ctx.extra['louvain_model_vs_code'] = dict(compared=len(sel), agree=agree, margin_dropped=dropped,
-                                              tie_dropped=ties_dropped, model_out_of_fuel=fuel_out,
-                                              margin_threshold=float(MARGIN))
+    for a in stats:
+        stats[a]['margin_threshold'] = float(MARGIN)
+    ctx.extra['model_vs_code'] = stats
